@@ -1,6 +1,7 @@
 package main
 
 import (
+	"os"
 	"bytes"
 	"encoding/hex"
 	"fmt"
@@ -92,6 +93,34 @@ func codecCase(line string) (res string) {
 			return id + " REPO-VALUE-MISMATCH"
 		}
 		return strings.Join([]string{id, "r", strconv.FormatUint(rec.Seq, 10), uuidBytes(rec.TxId), uuidBytes(rec.ContentId), hx([]byte(rec.Key))}, " ")
+	case "B":
+		// a batch through the real file repository over a real Badger database: Set (in one key-value
+		// transaction or one by one), then GetAll
+		var recs []verifapi.Record
+		if t[3] != "-" {
+			for _, rs := range strings.Split(t[3], ";") {
+				f := strings.Split(rs, ",")
+				seq, _ := strconv.ParseUint(f[0], 10, 64)
+				recs = append(recs, verifapi.Record{Seq: seq, TxId: uuidStr(unhex(f[1])), ContentId: uuidStr(unhex(f[2])), Key: string(unhex(f[3]))})
+			}
+		}
+		dir, derr := os.MkdirTemp("", "fsdbh-c19-")
+		if derr != nil {
+			return id + " HARNESS-ERROR " + derr.Error()
+		}
+		defer os.RemoveAll(dir)
+		out, err := verifapi.RepoBatch(dir, recs, t[2] == "tx")
+		if err != nil {
+			return id + " err"
+		}
+		if len(out) == 0 {
+			return id + " R -"
+		}
+		var parts []string
+		for _, r := range out {
+			parts = append(parts, strings.Join([]string{strconv.FormatUint(r.Seq, 10), uuidBytes(r.TxId), uuidBytes(r.ContentId), hx([]byte(r.Key))}, ","))
+		}
+		return id + " R " + strings.Join(parts, ";")
 	case "F":
 		return id + " s " + hx([]byte(uuidStr(unhex(t[2]))))
 	case "P":
